@@ -25,6 +25,13 @@ What is enumerated (real TCPServer / H11Protocol / H2Protocol / HTTPStream on bo
   200 000 byte body, WINDOW_UPDATE for stream 0 only; "stream-only credit then connection credit"
   and the reverse order, default windows, 70 000 / 200 000 byte bodies; four concurrent 20 000
   byte responses sharing one connection window, acknowledged by the client library's stock policy.
+* a *configuration axis* (9th scenario parameter): HTTP/2 carriers under h2_max_inbound_frame_size 2^15 / 2^16+1 (the size
+  of frames the server ACCEPTS; what it SENDS stays bounded by the client's SETTINGS_MAX_FRAME_SIZE) x bodies larger than a
+  default frame {70 000 bytes in one message, 20 000 + tail, 3 x 9000 bytes that pile up in the stream buffer} and a small
+  one x header lists, HEAD, trailers, a client that announces MAX_FRAME_SIZE 32 768 (also against the default
+  configuration), a 100 byte window, explicit acknowledgements / transport pauses / credit scripts; every carrier under
+  include_date_header = False, include_server_header = False, both, alt_svc_headers set, and all of them + the larger
+  frame size, for 6 method / status / header list / chunking combinations;
 
 Oracle: the bytes the server wrote are parsed by an independent h11 / h2 *client*; expected values
 come from the application script (the specification) and mc/x_c01c02c13_ref.py.  Clauses:
@@ -32,7 +39,9 @@ come from the application script (the specification) and mc/x_c01c02c13_ref.py. 
   response-count       not exactly one response for the request (or extra streams/pushes)
   status               status differs
   headers              not "application headers in order, then only date/server/alt-svc/connection
-                       (+ the HTTP/1 framing header the reference framing rule allows)"
+                       (+ the HTTP/1 framing header the reference framing rule allows)"; configuration axis: a date /
+                       server header although include_date_header / include_server_header is False, alt-svc headers
+                       other than the configured alt_svc_headers
   body                 body != concatenation of the chunks (empty for HEAD, 1xx, 204, 304)
   end-of-response      end not signalled exactly once after the last body byte
   trailers             trailers on HTTP/1, or to a client that did not send te: trailers, or altered, or (HTTP/2 with
@@ -46,12 +55,14 @@ from mc.clients import h1_request, h2_request_headers
 from mc.explore import V
 from mc.harness import default_observation
 from mc.x_c01c02c13_lib import h2c_settings_header, make_execute, make_xclient, paced_app_factory
-from mc.x_c01c02c13_ref import body_suppressed, response_header_problems
+from mc.x_c01c02c13_ref import body_suppressed, response_header_problems, server_header_config_problems
 
 ID = "C02"
 LEVEL = "model_checking"
 TECHNIQUE = ("bounded exhaustive enumeration of application response scripts x carriers (HTTP/1.1, 1.0, HTTP/2 over ALPN, by "
-             "h2c upgrade, by h2c upgrade with an empty HTTP2-Settings payload) x request methods, plus "
+             "h2c upgrade, by h2c upgrade with an empty HTTP2-Settings payload) x request methods, a configuration axis "
+             "(h2_max_inbound_frame_size above the default x bodies above a frame x client MAX_FRAME_SIZE; date / server "
+             "headers switched off, alt-svc headers configured), plus "
              "deviation-bounded stateless exploration of client pacing (h2 acknowledgements, transport pause/resume, "
              "application gates, HTTP/2 credit scripts: exact window without acknowledgement, connection-only credit, "
              "stream-then-connection credit, four concurrent streams) on the real TCPServer/H11/H2/HTTPStream code; "
@@ -71,11 +82,18 @@ ASSUMPTIONS = [
     "h2c upgrade with an empty HTTP2-Settings payload: only client pacings that do not depend on SETTINGS values of the "
     "client's own (those take effect when its SETTINGS frame arrives, the server may legally have sent more by then); "
     "gates x transport pause/resume and the four-stream script are explored on the ordinary h2c carrier only",
+    "configuration axis: h2_max_inbound_frame_size is the server's own receive limit and changes nothing of what is expected "
+    "(the client library rejects a DATA frame above the MAX_FRAME_SIZE the client announced, 16 384 by default); "
+    "include_date_header / include_server_header = False: the header must be absent (their presence under the default is "
+    "not demanded); alt_svc_headers: exactly the configured values, in order",
 ]
 BOUNDS_DOC = {"quick": "full product eager (5 carriers); paced selection (incl. the HTTP/2 credit scripts: bodies of exactly 1000 / 65 535 "
                        "bytes = the window, 70 000 and 200 000 bytes against stream-0-only / stream-then-connection credit, "
-                       "4 x 20 000 bytes concurrently) M<=1,S<=2",
-              "thorough": "full product eager; paced selection M<=2,S<=3 (four concurrent streams: M<=1,S<=3)"}
+                       "4 x 20 000 bytes concurrently) M<=1,S<=2; configuration axis: 3 frame-size configurations x 3 HTTP/2 "
+                       "carriers x {4 chunkings x 2 header lists, HEAD, trailers, client MAX_FRAME_SIZE 32 768, window 100} eager, "
+                       "4 paced scripts under 2^15 M<=1,S<=2; 5 header configurations x 5 carriers x 6 responses",
+              "thorough": "full product eager; paced selection M<=2,S<=3 (four concurrent streams: M<=1,S<=3); "
+                          "configuration axis as quick with the paced scripts M<=2,S<=3"}
 BUDGET = {"quick": 300, "thorough": 1500}
 
 BIGW = bytes(range(256)) * 273 + b"w" * 112  # 70 000 > 65 535 (initial HTTP/2 window)
@@ -101,6 +119,8 @@ PACED_CHUNKINGS: Dict[str, List[tuple]] = {
     "c200k": [(B200K, False)],
     "c200k2": [(B200K[:100000], True), (B200K[100000:], False)],
     "c20k": [(B200K[:20000], False)],
+    # three messages none of which is larger than a frame, together larger than one (they pile up in the stream buffer)
+    "c9k3": [(B200K[:9000], True), (B200K[9000:18000], True), (B200K[18000:27000], False)],
 }
 ALL_CHUNKINGS = {**CHUNKINGS, **PACED_CHUNKINGS}
 STATUSES = [200, 201, 204, 205, 304, 404, 500]  # 205: a status that is NOT body-less (only 1xx/204/304 are)
@@ -120,6 +140,8 @@ BIGWIN = 1 << 20
 PACES: Dict[str, dict] = {
     "eager": {"single": True}, "win100": {"single": True, "settings": {4: 100}, "flushes": 420},
     "win1": {"single": True, "settings": {4: 1}, "flushes": 420},
+    # the client announces SETTINGS_MAX_FRAME_SIZE 32 768: frames up to that size are legal towards it
+    "cmfs32k": {"single": True, "settings": {5: 32768}, "flushes": 40},
     "net": {"net": True},
     "acks": {"auto_ack": False, "acks": [("ack", 1)] * 8},
     "smallacks": {"auto_ack": False, "acks": [("ackn", 1, 100), ("ackn", 1, 5000), ("ackn", 1, 20000)] + [("ack", 1)] * 8},
@@ -137,6 +159,58 @@ PACES: Dict[str, dict] = {
     # (it then renews the connection window only: no stream received half a window)
     "four": {"streams": 4, "flushes": 12},
 }
+
+
+# ---------------------------------------------------------------------------------------------
+# configuration axis: a scenario with a 9th parameter runs under that non-default configuration.  What the options
+# change in what is expected (reference: mc/x_c01c02c13_ref.py server_header_config_problems):
+#   mfs32k / mfs64k1   h2_max_inbound_frame_size 2^15 / 2^16+1: the largest frame the SERVER is willing to RECEIVE; the
+#                      frames it sends are bounded by what the CLIENT announced (SETTINGS_MAX_FRAME_SIZE, 16 384 unless
+#                      the client says otherwise - the h2 client library refuses a larger frame): nothing changes
+#   nodate / noserver / bare   include_date_header / include_server_header = False: that header must not be there
+#   altsvc             alt_svc_headers = [...]: exactly these values as alt-svc headers of the response
+CFGS: Dict[str, dict] = {
+    "mfs32k": {"h2_max_inbound_frame_size": 2 ** 15},
+    "mfs64k1": {"h2_max_inbound_frame_size": 2 ** 16 + 1},
+    "nodate": {"include_date_header": False},
+    "noserver": {"include_server_header": False},
+    "bare": {"include_date_header": False, "include_server_header": False},
+    "altsvc": {"alt_svc_headers": ['h3=":443"; ma=3600', 'h2=":8443"']},
+    "bare+altsvc+mfs32k": {"include_date_header": False, "include_server_header": False,
+                           "alt_svc_headers": ['h3=":443"; ma=3600'], "h2_max_inbound_frame_size": 2 ** 15},
+}
+HEADER_CFGS = ("nodate", "noserver", "bare", "altsvc", "bare+altsvc+mfs32k")
+FRAME_CFGS = ("mfs32k", "mfs64k1", "bare+altsvc+mfs32k")
+
+
+def cfg_of(params: Any) -> str:
+    return params[8] if len(params) > 8 else ""
+
+
+def config_scenarios(engine: str, carrier: str) -> List[Any]:
+    out: List[Any] = []
+    if carrier in H2S:
+        for cfg in FRAME_CFGS:
+            # bodies larger than a default frame (one message / message + tail / three messages that pile up) and a small one
+            for ch in ("cw", "cf", "c9k3", "c3"):
+                for hdrs in ("none", "cl"):
+                    out.append((engine, carrier, "GET", 200, hdrs, ch, "", "eager", cfg))
+            out.append((engine, carrier, "HEAD", 200, "cl", "cw", "", "eager", cfg))
+            out.append((engine, carrier, "GET", 200, "rep", "cf", "trailers-te", "eager", cfg))
+            if carrier != "h2c0":  # (client SETTINGS behind an empty upgrade payload: see ASSUMPTIONS)
+                for pace, chs in (("cmfs32k", ("cw", "c9k3")), ("win100", ("cf", "c9k3"))):
+                    for ch in chs:
+                        out.append((engine, carrier, "GET", 200, "none", ch, "", pace, cfg))
+        for pace, ch in (("acks", "cw"), ("net", "cf"), ("smallacks", "cw"), ("streamconn1", "cw")):
+            out.append((engine, carrier, "GET", 200, "none", ch, "", pace, "mfs32k"))
+        if carrier != "h2c0":  # a client that accepts larger frames, server configuration default
+            for ch in ("cw", "cf", "c9k3"):
+                out.append((engine, carrier, "GET", 200, "none", ch, "", "cmfs32k"))
+    for cfg in HEADER_CFGS:
+        for method, status, hdrs, ch in (("GET", 200, "none", "c3"), ("GET", 200, "cl", "c1"), ("HEAD", 200, "rep", "c3"),
+                                         ("GET", 204, "none", "c0"), ("GET", 404, "rep", "cf"), ("GET", 500, "cl", "c3e")):
+            out.append((engine, carrier, method, status, hdrs, ch, "", "eager", cfg))
+    return out
 
 
 def pace_of(pace: str) -> dict:
@@ -209,6 +283,7 @@ def scenarios(tier: str) -> List[Any]:
                             out.append((engine, carrier, "GET", 200, hdrs, ch, "", pace))
                 if carrier != "h2c0":
                     out.append((engine, carrier, "GET", 200, "none", "c20k", "", "four"))
+            out.extend(config_scenarios(engine, carrier))
     return out
 
 
@@ -224,7 +299,7 @@ def bounds(tier: str, params: Any) -> dict:
 
 def script_of(params: Any) -> tuple:
     """(application program, app header list, body chunks, trailers or None)"""
-    engine, carrier, method, status, hdrs, ch, extra, pace = params
+    engine, carrier, method, status, hdrs, ch, extra, pace = params[:8]
     chunks = ALL_CHUNKINGS[ch]
     body = b"".join(c for c, _ in chunks)
     headers = app_headers(hdrs, body)
@@ -253,7 +328,7 @@ def script_of(params: Any) -> tuple:
 
 
 def plan(params: Any, chooser: Any) -> tuple:
-    engine, carrier, method, status, hdrs, ch, extra, pace = params
+    engine, carrier, method, status, hdrs, ch, extra, pace = params[:8]
     prog, headers, body, trailers = script_of(params)
     pc = pace_of(pace)
     m = method.encode()
@@ -297,7 +372,8 @@ def plan(params: Any, chooser: Any) -> tuple:
     if releases:
         sources.append(("app", [("release", "g")] * releases))
     sc = {"level": "conn", "conns": {0: conn}, "client_factory": make_xclient,
-          "app_factory": paced_app_factory({"http": prog}), "config": {"keep_alive_timeout": 5}, "sources": sources,
+          "app_factory": paced_app_factory({"http": prog}),
+          "config": {"keep_alive_timeout": 5, **CFGS.get(cfg_of(params), {})}, "sources": sources,
           "midflight": not pc["single"], "sigs": not pc["single"]}
     return engine, sc, {"headers": headers, "body": body, "trailers": trailers, "te": te, "sids": sids}
 
@@ -313,7 +389,8 @@ def _kind(got: bytes, want: bytes) -> str:
 
 
 def oracle(w: Any, params: Any, ctx: Any) -> List[dict]:
-    engine, carrier, method, status, hdrs, ch, extra, pace = params
+    engine, carrier, method, status, hdrs, ch, extra, pace = params[:8]
+    cfg = CFGS.get(cfg_of(params), {})
     out: List[dict] = []
     rec = w.conns[0]
     cl = rec.client
@@ -351,6 +428,8 @@ def oracle(w: Any, params: Any, ctx: Any) -> List[dict]:
         if got_status != status:
             out.append(V("status", f"{tag}:got-{got_status}", ""))
         prob = response_header_problems(list(got_headers), ctx["headers"], h1, carrier == "h10", status, method, len(got_body))
+        if prob is None and cfg:
+            prob = server_header_config_problems(list(got_headers), ctx["headers"], cfg)
         if prob is not None:
             out.append(V("headers", f"{tag}:{prob}", f"got {got_headers!r} app sent {ctx['headers']!r}"))
         if got_body != want_body:
